@@ -166,7 +166,7 @@ impl Fault {
     }
 }
 
-fn faults_for(bi: usize, b: &Base) -> Vec<Fault> {
+fn faults_for(bi: usize, b: &Base, thorough: bool) -> Vec<Fault> {
     let mut v = vec![];
     if b.families == 0 {
         return v;
@@ -176,7 +176,13 @@ fn faults_for(bi: usize, b: &Base) -> Vec<Fault> {
         if file == "chunk" && b.families < 2 {
             continue;
         }
+        // index files: every truncation length. Chunk file: every length (thorough); quick =
+        // the first 64 lengths, every block boundary (secondary offsets) -2..=+2, every 64th length
+        let boundaries: BTreeSet<usize> = (0..b.secondary.len() / SEC_ENTRY).map(|e| db::sec_offset(&b.secondary, e) as usize).collect();
         for l in 0..len {
+            if file == "chunk" && !thorough && !(l < 64 || l % 64 == 0 || l + 2 >= len || (l.saturating_sub(2)..=l + 2).any(|x| boundaries.contains(&x))) {
+                continue;
+            }
             v.push(Fault { base: bi, file, family: "truncate", detail: format!("to {l} of {len} bytes"), at: l, bytes: None });
         }
     }
@@ -326,15 +332,17 @@ fn run_op(op: usize, dir: &Path, name: &str, b: &Base) -> String {
     }
 }
 
-/// `mc-hardano __c43-worker <dir> <specfile> <start> <end> <from_op> <tier>`
+/// `mc-hardano __c43-worker <dir> <specfile> <start> <end> <from_op> <tier> <stride>`:
+/// handles faults start, start+stride, .. < end; the first one from reader `from_op`.
 pub fn worker(args: &[String]) -> ! {
     let fail = |m: &str| -> ! {
         eprintln!("WORKER-FAILURE: {m}");
         std::process::exit(3)
     };
-    if args.len() != 6 {
+    if args.len() != 7 {
         fail("usage");
     }
+    let stride: usize = args[6].parse().unwrap_or(1).max(1);
     let dir = PathBuf::from(&args[0]);
     let spec = std::fs::read_to_string(&args[1]).unwrap_or_else(|e| fail(&format!("spec: {e}")));
     let (start, end, from_op): (usize, usize, usize) = (args[2].parse().unwrap_or(0), args[3].parse().unwrap_or(0), args[4].parse().unwrap_or(0));
@@ -350,7 +358,7 @@ pub fn worker(args: &[String]) -> ! {
         fail("mkdir");
     }
     let mut current_base = usize::MAX;
-    for idx in start..end.min(lines.len()) {
+    for idx in (start..end.min(lines.len())).step_by(stride) {
         let Some(f) = Fault::from_line(lines[idx]) else { fail(&format!("bad spec line {idx}")) };
         let Some(b) = bases.get(f.base) else { fail("bad base") };
         if current_base != f.base {
@@ -407,6 +415,8 @@ enum OpResult {
     Panic { site: String, message: String, location: String },
     /// the worker died / hung inside this op
     Crash { how: String, class: String, stderr_tail: String },
+    /// not run: an earlier reader of the same fault killed the worker (quick tier)
+    Skipped,
 }
 
 struct BatchOut {
@@ -440,7 +450,10 @@ fn crash_class(stderr: &str) -> String {
     }
 }
 
-fn run_batch(exe: &Path, dir: &Path, spec: &Path, start: usize, end: usize, tier: &str) -> BatchOut {
+/// Runs faults start, start+stride, .. < end in worker processes. `resume` =
+/// after a reader killed the worker, run the remaining readers of that fault
+/// in a fresh worker (otherwise they are recorded as `Skipped`).
+fn run_batch(exe: &Path, dir: &Path, spec: &Path, start: usize, end: usize, stride: usize, tier: &str, resume: bool) -> BatchOut {
     use std::os::unix::process::ExitStatusExt;
     let mut out = BatchOut { results: BTreeMap::new(), spawns: 0, machinery: None };
     let (mut idx, mut from_op) = (start, 0usize);
@@ -454,6 +467,8 @@ fn run_batch(exe: &Path, dir: &Path, spec: &Path, start: usize, end: usize, tier
             .arg(end.to_string())
             .arg(from_op.to_string())
             .arg(tier)
+            .arg(stride.to_string())
+            .env("RUST_BACKTRACE", "0")
             .stdin(Stdio::null())
             .stdout(Stdio::piped())
             .stderr(Stdio::piped())
@@ -506,7 +521,7 @@ fn run_batch(exe: &Path, dir: &Path, spec: &Path, start: usize, end: usize, tier
                             out.results.insert((i, op), r);
                             cur = Some((i, None));
                         }
-                        (Some("D"), Some(i), _) => cur = i.parse::<usize>().ok().map(|i| (i + 1, None)),
+                        (Some("D"), Some(i), _) => cur = i.parse::<usize>().ok().map(|i| (i + stride, None)),
                         (Some("E"), _, _) => finished = true,
                         _ => {}
                     }
@@ -551,11 +566,14 @@ fn run_batch(exe: &Path, dir: &Path, spec: &Path, start: usize, end: usize, tier
                 let tail = tail[tail.len().saturating_sub(4)..].join(" | ");
                 out.results.insert((i, op), OpResult::Crash { how, class, stderr_tail: tail });
                 // resume after the op that killed the worker
-                if op + 1 < OPS.len() {
+                if resume && op + 1 < OPS.len() {
                     idx = i;
                     from_op = op + 1;
                 } else {
-                    idx = i + 1;
+                    for o in op + 1..OPS.len() {
+                        out.results.insert((i, o), OpResult::Skipped);
+                    }
+                    idx = i + stride;
                     from_op = 0;
                 }
             }
@@ -624,7 +642,7 @@ pub fn run(ctx: Ctx) -> ! {
         faults = vec![f];
     } else {
         for (bi, b) in bases.iter().enumerate() {
-            faults.extend(faults_for(bi, b));
+            faults.extend(faults_for(bi, b, ctx.thorough));
         }
     }
     let body: String = faults.iter().map(|f| f.to_line() + "\n").collect();
@@ -632,13 +650,13 @@ pub fn run(ctx: Ctx) -> ! {
         scratch.fail(&format!("spec: {e}"));
     }
 
-    let threads = rayon::current_num_threads().max(1);
-    let batch = (faults.len() / (threads * 4)).clamp(1, 512);
-    let ranges: Vec<(usize, usize)> = (0..faults.len()).step_by(batch).map(|s| (s, (s + batch).min(faults.len()))).collect();
-    let outs: Vec<BatchOut> = ranges
-        .par_iter()
-        .enumerate()
-        .map(|(w, (s, e))| run_batch(&exe, &scratch.0.join(format!("w{w}")), &spec, *s, *e, ctx.tier()))
+    // worker w handles faults w, w+stride, ..: the (slow) crashing faults, which are
+    // neighbours in the enumeration, get spread over all workers
+    let stride = (rayon::current_num_threads().max(1) * 4).min(faults.len()).max(1);
+    let resume = ctx.thorough || ctx.replay.is_some();
+    let outs: Vec<BatchOut> = (0..stride)
+        .into_par_iter()
+        .map(|w| run_batch(&exe, &scratch.0.join(format!("w{w}")), &spec, w, faults.len(), stride, ctx.tier(), resume))
         .collect();
     let mut results: BTreeMap<(usize, usize), OpResult> = BTreeMap::new();
     let mut spawns = 0u64;
@@ -700,6 +718,7 @@ pub fn run(ctx: Ctx) -> ! {
 
     // ---- verdicts + diagnostics
     let mut evals = 0u64;
+    let mut skipped = 0u64;
     let mut affected: BTreeSet<usize> = BTreeSet::new();
     let mut classes: BTreeMap<String, BTreeMap<String, u64>> = BTreeMap::new();
     let mut by_family: BTreeMap<String, u64> = BTreeMap::new();
@@ -734,6 +753,10 @@ pub fn run(ctx: Ctx) -> ! {
                     *classes.entry(f.class()).or_default().entry("PANIC".into()).or_default() += 1;
                     ctx.violation(site.clone(), format!("{} panicked on a database whose {} file has {} ({}): {message} at {location}", OPS[op], f.file, f.family, f.detail), case);
                 }
+                OpResult::Skipped => {
+                    evals -= 1;
+                    skipped += 1;
+                }
                 OpResult::Crash { how, class, stderr_tail } => {
                     affected.insert(i);
                     *classes.entry(f.class()).or_default().entry("CRASH".into()).or_default() += 1;
@@ -756,9 +779,12 @@ pub fn run(ctx: Ctx) -> ! {
         "samples" => samples,
         "exhaustive" => true,
         "faults" => nfaults,
+        "chunk_truncation_lengths" => if ctx.thorough { "every length" } else { "first 64 lengths, every block boundary -2..=+2, every 64th length, last 2 (index files: every length in both tiers)" },
         "faults_by_base_and_family" => by_family,
         "readers" => OPS,
         "worker_processes" => spawns,
+        "readers_not_run_after_a_reader_killed_the_worker" => skipped,
+        "after_a_crash" => if resume { "the remaining readers of the fault are run in a fresh worker" } else { "the remaining readers of that fault are skipped (quick tier) and not counted as evaluations" },
         "distinct_outcome_shapes" => distinct_outcomes.len(),
         "diagnostic_outcome_classes_by_fault_family" => classes,
         "as_is_fixture_outcomes" => as_is_notes,
